@@ -128,3 +128,41 @@ Proof.
   exists rsp, m2, m4, h, icvlen, b1, p1, b2, p2, b3, p3. cbn [es_sik es_k1 es_k2 es_local_id es_remote_id es_suite].
   rewrite <- A1. repeat split; auto; try congruence.
 Qed.
+
+(* a session is only ever returned for an implemented suite: authentication 1..3, integrity 1, 2 or 4, AES-CBC-128 *)
+Theorem new_session_implemented : forall o s random sc1 sc2 sc3 sent e,
+  new_session o s random sc1 sc2 sc3 = (sent, inl e) ->
+  In (su_auth s) [1; 2; 3] /\ In (su_integ s) [1; 2; 4] /\ su_conf s = 1.
+Proof.
+  intros o s random sc1 sc2 sc3 sent e H. unfold new_session in H.
+  destruct (exchange 16 (ser_opensessionreq (open_request o s) []) sc1 1) as [sent1 r1] eqn:X1.
+  destruct r1 as [p1|e1]; [|discriminate].
+  destruct (decode_opensessionrsp opensessionrsp_zero p1) as [rsp| |] eqn:D1; try discriminate.
+  destruct (negb (os_tag rsp =? 0)) eqn:T1; [discriminate|].
+  destruct (negb (os_status rsp =? 0)) eqn:S1; [discriminate|].
+  destruct (negb (suite_eqb _ s)) eqn:A1; [discriminate|].
+  destruct (exchange 18 (ser_rakp1 (rakp1_request o rsp random) []) sc2 2) as [sent2 r2] eqn:X2.
+  destruct r2 as [p2|e2]; [|discriminate].
+  destruct (decode_rakp2 rakp2_zero p2) as [m2| |] eqn:D2; try discriminate.
+  destruct (negb (r2_tag m2 =? 0)) eqn:T2; [discriminate|].
+  destruct (negb (r2_status m2 =? 0)) eqn:S2; [discriminate|].
+  destruct (auth_params (ap_alg (os_auth rsp))) as [[h icvlen]|] eqn:AP; [|discriminate].
+  destruct (negb (bytes_eqb (r2_authcode m2) _)) eqn:C2; [discriminate|].
+  match type of H with context [exchange 20 ?pl sc3 3] => destruct (exchange 20 pl sc3 3) as [sent3 r3] eqn:X3 end.
+  destruct r3 as [p3|e3]; [|discriminate].
+  destruct (decode_rakp4 rakp4_zero p3) as [m4| |] eqn:D4; try discriminate.
+  destruct (negb (r4_tag m4 =? 0)) eqn:T4; [discriminate|].
+  destruct (negb (r4_status m4 =? 0)) eqn:S4; [discriminate|].
+  destruct (negb (bytes_eqb (r4_icv m4) _)) eqn:C4; [discriminate|].
+  destruct (integrity_sign (ap_alg (os_integ rsp)) _) eqn:IS; [|discriminate].
+  destruct (ap_alg (os_integ rsp) =? 0) eqn:I0; [discriminate|].
+  destruct (negb (ap_alg (os_conf rsp) =? 1)) eqn:CF; [discriminate|].
+  apply negb_false_iff in A1, CF. apply N.eqb_eq in CF. apply N.eqb_neq in I0.
+  apply suite_eqb_true in A1. cbn [su_auth su_integ su_conf] in A1. destruct A1 as [A1 [A2 A3]].
+  rewrite A1 in AP. rewrite A2 in IS, I0. rewrite A3 in CF. clear - AP IS I0 CF.
+  split; [|split; [|exact CF]].
+  - unfold auth_params in AP. cbn [In].
+    destruct (su_auth s) as [|[[|[]|]|[|[]|]|]]; try discriminate; auto.
+  - unfold integrity_sign, integrity_params in IS. cbn [In].
+    destruct (su_integ s) as [|[[|[]|]|[[|[]|]|[|[]|]|]|]]; try discriminate; try congruence; auto.
+Qed.
